@@ -556,7 +556,10 @@ func (in *Interp) stmt(s Stmt, sc *scope, fr *frame) (Value, bool, *ctl) {
 	case *While:
 		for {
 			in.tick()
-			cv, c := in.eval(v.Cond, sc, fr)
+			// every pass (test of the condition + body) has a scope of its own: a name the
+			// condition binds with 得到 belongs to that pass
+			psc := &scope{vars: map[string]*binding{}, parent: sc}
+			cv, c := in.eval(v.Cond, psc, fr)
 			if c != nil {
 				return nil, false, c
 			}
@@ -567,7 +570,7 @@ func (in *Interp) stmt(s Stmt, sc *scope, fr *frame) (Value, bool, *ctl) {
 			if !b {
 				return nil, false, nil
 			}
-			_, _, c = in.block(v.Body, &scope{vars: map[string]*binding{}, parent: sc}, fr, false)
+			_, _, c = in.block(v.Body, &scope{vars: map[string]*binding{}, parent: psc}, fr, false)
 			if c != nil {
 				switch c.kind {
 				case ctlBreak:
